@@ -36,7 +36,8 @@ type Item struct {
 	Ch     byte
 	Raw    []byte
 	Claim  types.BlockID
-	Held   bool // some honest node holds it (and would gossip it on)
+	Held   bool   // some honest node holds it (and would gossip it on)
+	ckey   string // claim key of a vote (round/type/block), precomputed
 	seq    int
 }
 
@@ -107,7 +108,10 @@ func (p *Pool) AddVote(v *types.Vote, signer int, byz bool, bad string) *Item {
 		return nil
 	}
 	id := "v" + shortHash(v.Signature.Bytes(), []byte(fmt.Sprintf("%d/%d/%d/%d", v.ValidatorIndex, v.Height, v.Round, v.Type)), v.BlockID.Hash)
-	return p.add(&Item{ID: id, Kind: kVote, H: v.Height, R: v.Round, Type: v.Type, Signer: signer, Vote: v, Byz: byz, Bad: bad})
+	if old, ok := p.byID[id]; ok {
+		return old
+	}
+	return p.add(&Item{ID: id, Kind: kVote, H: v.Height, R: v.Round, Type: v.Type, Signer: signer, Vote: v, Byz: byz, Bad: bad, ckey: claimKey(v.Round, v.Type, v.BlockID.Key())})
 }
 
 func (p *Pool) AddProposal(pr *types.Proposal, signer int, byz bool, bad string) *Item {
